@@ -331,9 +331,30 @@ def r19_10(run, model):
                        "`type Color struct`; a variant Point in package Geo and struct Point in Main both become `type Point struct`")
 
 
+def r19_12(run, model):
+    run.rule("R19.12", "a function name that embeds a type embeds the whole type: every name builder in names.rs that is given a type "
+                       "(`for_ty`, `receiver_ty`) renders it with the injective printer ty_compact - the constructor name alone gives "
+                       "`impl Display for Maybe[int32]` and `impl Display for Maybe[string]` one Go function")
+    NAMES = "crates/compiler/src/names.rs"
+    n = 0
+    for f in model.fns(NAMES):
+        if f.body is None or not f.name.endswith("_fn_name") or f.name.startswith("parse_"):
+            continue
+        typed = [p["pat"]["name"] for p in f.params() if not p["self"] and p["pat"]["k"] == "PIdent" and re.search(r"\bTy\b", p["ty"] or "")]
+        for tp in typed:
+            n += 1
+            full = any(c["k"] == "Call" and S.callee_name(c) == "ty_compact" and c["args"] and tp in S.idents(c["args"][0]) for c in S.walk(f.body))
+            run.ob("R19.12", f"{f.name}|{tp} is rendered in full", full, site(NAMES, f.node["sp"]),
+                   f"ty_compact({tp}) in the name: {full}",
+                   witness="impl Display for Maybe[int32] and impl Display for Maybe[string] both become _goml_trait_impl_Display_Maybe_show; mono keys "
+                           "functions by name, one impl replaces the other")
+    run.floor("name builders that embed a type", n, 2)
+
+
 def run(run, model):
     run.try_rule(r19_8, model)
     run.try_rule(r19_10, model)
+    run.try_rule(r19_12, model)
     from rules import c17 as _c17
     run.rule("R19.11", "a user function cannot take the name of a builtin: define_function rejects a name that is already in the package's "
                        "function table, which holds the builtins too (shared with C16 R16.8) - the runtime defines those names and the back "
